@@ -51,6 +51,7 @@ from vlib.report import Report
 
 PID = "C02"
 COLLECT = (".p", ".log", ".txt", ".lst")
+QUICK_JUMP = 3000    # quick tier: every one-file run of the jump cover, a seeded sample of the two-file runs
 QUICK_SMALL = 9000   # quick tier: seeded sample of the cover if it is larger than this
 BIG = 255            # a REPT burst of at least this many lines is "big" (sampled in the quick tier)
 
@@ -114,14 +115,14 @@ def kept_flags(job, res, trace):
 
 def model_checks(rep, tier):
     runs = [("Driver_MC", "Driver_MC.cfg" if tier == "quick" else "Driver_MC4.cfg"),
-            ("Driver_MC", "Driver_MC_2f.cfg"), ("Diag_MC", "Diag_MC.cfg")]
+            ("Driver_MC", "Driver_MC_2f.cfg"), ("Driver_MC", "Driver_MC_Jump.cfg"), ("Diag_MC", "Diag_MC.cfg")]
     if tier != "quick":
         runs.append(("Diag_MC", "Diag_MC_Wrap8.cfg"))      # closed forms also describe wrapping counters
     def one(mc):
         mod, cfg = mc
         return tlc.must(tlc.run(mod, cfg, workers=2, timeout=1500, mem="6g", collect=False), "%s(%s)" % (mod, cfg))
     with Phase("TLC model checks"):
-        rs = pmap(one, runs, workers=3)
+        rs = pmap(one, runs, workers=4)
     for (mod, cfg), r in zip(runs, rs):
         if r.violation:
             raise CheckError("the design %s(%s) violates its own invariants: %s" % (mod, cfg, r.violation[:800]))
@@ -187,6 +188,26 @@ def main(tier):
         rv["x"] = 0                      # keep 65 k-line outputs small
         rv["L"] = False
         jobs.append((t, make_job(t, rv, dialect, events="file,diag,stmt" if i < 6 else None), dialect))
+    # the jump-error discard protocol (JmpErrors / -Y / Repass): its own cover, targets that size operands themselves
+    with Phase("TLC Driver_Gen jump cover"):
+        covj = tlc.must(tlc.run("Driver_Gen", "Driver_Gen_Jump.cfg", workers=1, timeout=1500, mem="8g"), "Driver_Gen(Jump)")
+    rep.model("Driver_Gen(jump cover)", covj)
+    jtrs = [b for (tag, b) in covj.printed if tag == "TR" and any(ln["k"] in ("tjmp", "pjmp") for f in b["files"] for ln in f)]
+    if not jtrs:
+        raise CheckError("Driver_Gen_Jump printed no behaviours")
+    navail = len(jtrs)
+    if tier == "quick" and len(jtrs) > QUICK_JUMP:
+        one = [t for t in jtrs if len(t["files"]) == 1]
+        two = [t for t in jtrs if len(t["files"]) != 1]
+        rng("c02/jump").shuffle(two)
+        jtrs = one + two[:max(0, QUICK_JUMP - len(one))]
+    rep.part("generation_jump", behaviours=navail, run=len(jtrs))
+    for i, t in enumerate(jtrs):
+        rr = rng("c02/jump/%d" % i)
+        dialect = drvrender.JUMP_DIALECTS[i % len(drvrender.JUMP_DIALECTS)]
+        # hook traces only without -Y: Driver_Trace replays the counters without the discount
+        ev = "file,diag,stmt" if (not t["o"]["throw"] and i % 3 == 0) else None
+        jobs.append((t, make_job(t, report_vector(rr), dialect, events=ev), dialect))
     with Phase("replay %d runs" % len(jobs)):
         results = drvrun.run_many(bld, [j for (_, j, _) in jobs])
     execs, owners, late, late_owners = [], [], [], []
